@@ -354,6 +354,19 @@ def oracle_stream(pid, sc, ob):
             why = on_poll(c, r)
             if why:
                 return why
+        elif c == "D" and r.startswith("d") and r != "d-":
+            # drain: all frames up to Pending / end / error, reported as their concatenation
+            hexd, frames, shortest, t = r[1:].split(":")
+            if int(frames) > 0:
+                if pid == "C08" and int(shortest) == 0:
+                    return "empty data frame"
+                why = on_poll("P", "0:-:0>D" + hexd)
+                if why:
+                    return why
+            if t in "NEP":
+                why = on_poll("P", "0:-:0>" + t)
+                if why:
+                    return why
         # polls the consumer made from inside wake() while this operation ran (op `I`): it was woken, so it polls with waker A
         for inl in inline:
             if st["parked"] == "a":
@@ -451,6 +464,11 @@ def fam_gzip():
     import random
     rnd11 = random.Random(11)
     big = bytes(rnd11.randrange(256) for _ in range(70000))
+    huge = bytes(rnd11.randrange(256) for _ in range(200000))
+    for cs, level in ((4096, 6), (7, 1)):
+        for name, ops in (("huge:write_all-drop", ["L" + hx(huge), "X", "D"]), ("huge:write-write_all-flush", ["W" + hx(huge), "L" + hx(huge[:1000]), "F", "D", "X", "D"])):
+            k += 1
+            out.append({"id": "gz%d" % k, "kind": "gzip", "name": name, "chunk": cs, "ae": "gzip", "level": level, "method": "GET", "ops": ops})
     for cs, level in ((4096, 6), (4096, 1), (1, 1), (65536, 9)):
         for name, ops in (("big:short-write-flush", ["W" + hx(big), "F", "D", "X", "D"]),
                           ("big:two-short-writes-flush", ["W" + hx(big), "W" + hx(big[1:]), "F", "D", "X", "D"]),
@@ -761,6 +779,20 @@ def fam_stream_inline():
     return out
 
 
+def fam_stream_long_writes():
+    """Single `write` / `write_all` calls that cross several chunk boundaries (identity body), alone and after a pending byte."""
+    out, k = [], 0
+    data = bytes(range(0x41, 0x41 + 26)) * 2
+    for cs in (1, 2, 4, 7):
+        for n in (cs + 1, 2 * cs, 2 * cs + 1, 3 * cs + 2, 5 * cs + 1):
+            for pre in ([], ["W" + data[:1].hex()], ["W" + data[:1].hex(), "F"]):
+                for kind in ("W", "L"):
+                    for tail in (["X", "D"], ["F", "D", "X", "D"], ["P", "X", "D"]):
+                        k += 1
+                        out.append({"id": "lw%d" % k, "chunk": cs, "ops": pre + [kind + data[1:1 + n].hex()] + tail})
+    return out
+
+
 def fam_stream_disconnect():
     out = []
     k = 0
@@ -773,10 +805,11 @@ def fam_stream_disconnect():
 
 
 FAMILIES[("chunker", "Reader::drop")] = ("stream_witness", fam_stream_disconnect)
-FAMILIES[("chunker", "Reader")] = ("stream_witness", lambda: fam_stream_inline() + fam_stream_ops(5, (2, 3)) + fam_stream_ops(4, (1,)))
+FAMILIES[("chunker", "Reader")] = ("stream_witness", lambda: fam_stream_inline() + fam_stream_long_writes() + fam_stream_ops(5, (2, 3)) + fam_stream_ops(4, (1,)))
 FAMILIES[("chunker", "Writer")] = FAMILIES[("chunker", "Reader")]
 FAMILIES[("gzipbody", "")] = ("stream_witness", fam_gzip)
 FAMILIES[("build", "BodyWriter")] = ("stream_witness", fam_gzip)
+FAMILIES[("build", "BodyWriter::write")] = ("stream_witness", lambda: fam_stream_long_writes() + fam_stream_inline() + fam_stream_disconnect())
 FAMILIES[("file", "")] = ("file_witness", fam_file)
 FAMILIES[("build", "")] = ("stream_witness", fam_build)
 FAMILIES[("gz", "")] = ("stream_witness", fam_accept_encoding)
@@ -1429,6 +1462,11 @@ GZ_CONTENT = {"plain": "P:plain", "both": "P:both", "both.gz": "Z:both", "gzdir"
 
 def fam_gz_siblings():
     out, k = [], 0
+    for path in ("plain\0", "plain\0x", "both\0", "sub/both\0..", "\0plain", "onlygz\0", "/plain", "sub/../plain", "../gzbase/plain"):
+        for ae in ("gzip", None):
+            for auto in (1, 0):
+                k += 1
+                out.append({"id": "gs%d" % k, "kind": "gz", "path": path, "ae": ae, "auto": auto})
     for path in ("plain", "both", "gzdir", "onlygz", "missing", "sub/both", "dir", "both.gz", "sub", "nothing", "chardev"):
         for ae in (None, "gzip", "identity", "gzip;q=0", "*", "gzip;q=0.5, identity;q=0.9", "br", "gzip, identity;q=0", ""):
             for auto in (1, 0):
@@ -1454,6 +1492,8 @@ def oracle_gz_sibling(pid, sc, obs):
     if pref is None:
         return None
     path = sc["path"]
+    if path_refused(path):
+        return None if what == "invalid" else "get(%r) with Accept-Encoding %r, auto_gzip %s must be refused (absolute, NUL or `..` segment) but returned %s" % (path, sc["ae"], bool(sc["auto"]), what)
     sib = GZ_TREE.get(path + ".gz")
     want_gz = bool(sc["auto"]) and pref and sib == "P"
     if want_gz:
@@ -1581,8 +1621,8 @@ if __name__ == "__main__":
                 print(pid, hit[2], stream_line(hit[0]), "\n   ", hit[1])
         print(len(scs), "scenarios; properties with an oracle failure:", bad)
         sys.exit(0)
-    if fam in ("st", "dc", "in"):
-        scs = fam_stream_ops(int(sys.argv[2]) if len(sys.argv) > 2 else 4) if fam == "st" else (fam_stream_disconnect() if fam == "dc" else fam_stream_inline())
+    if fam in ("st", "dc", "in", "lw"):
+        scs = fam_stream_ops(int(sys.argv[2]) if len(sys.argv) > 2 else 4) if fam == "st" else (fam_stream_disconnect() if fam == "dc" else (fam_stream_inline() if fam == "in" else fam_stream_long_writes()))
         lines = run_native("stream_witness", [stream_line(x) for x in scs])
         bad = {}
         for sc, ln in zip(scs, lines):
